@@ -20,7 +20,7 @@ ASSUMPTIONS = ['removal bundles contain only removal operations, so the expected
                'previous value minus removed rows', 'summary-table group-by reference columns mirror their source and '
                'are compared like any other data cell only when the summary row survives with the same id']
 BUDGET = {'quick': dict(examples=1100, shards=16, max_seconds=75),
-          'thorough': dict(examples=16000, shards=16, max_seconds=1800)}
+          'thorough': dict(examples=3500, shards=16, max_seconds=1800)}
 SHRINK_BUDGET = {'quick': 60, 'thorough': 400}
 
 REMOVAL_KINDS = {'remove': 10, 'rmtable': 3, 'rmcol': 2, 'rmview': 1, 'rmsection': 1, 'meta_rmcol': 1,
